@@ -249,7 +249,9 @@ struct C02 : World, TtxWorldBase {
       Op o; o.task = (int)r.below((uint64_t)nmag); o.kind = "page";
       int pg = car[o.task][r.below(1 + r.below(4))];
       int sub = r.chance(1, 2) ? 0 : 1 + (int)r.below(r.chance(1, 4) ? 79 : 3);
-      int flags = (int)r.below(32);  // bit0 X/27/0, bit1 link control "row 24", bit2 send row 24, bit3 rows in random order, bit4 X/26 enhancement packets (Level 1.5)
+      // bit0 X/27/0, bit1 link control "row 24", bit2 send row 24, bit3 rows in random order, bit4 X/26 enhancement packets (Level 1.5),
+      // bit5 the page may directly follow another subpage of the same page number (rolling subpages back to back)
+      int flags = (int)r.below(64);
       o.a = {pg, sub, (int64_t)r.below(8), r.chance(1, 3) ? 1 : 0, (int64_t)r.below(1u << 30), flags, (int64_t)r.below(7)};
       p.ops.push_back(o);
     }
@@ -393,9 +395,9 @@ struct C02 : World, TtxWorldBase {
     int cached; { SutScope ss; cached = vbi_is_cached(dec, o.pgno, o.subno); }
     if (!cached) { ctx->fail("oracle:ttx-is-cached", "vbi_is_cached(%x,%x) false after reception", o.pgno, o.subno); return; }
     int hi; { SutScope ss; hi = vbi_cache_hi_subno(dec, o.pgno); }
-    int want_hi = 0;
-    for (auto& kv : store) if ((kv.first >> 8) == o.pgno && kv.second.subno > want_hi) want_hi = kv.second.subno;
-    if (hi != want_hi) { ctx->fail("oracle:ttx-hi-subno", "vbi_cache_hi_subno(%x) = %x, highest subpage received %x", o.pgno, hi, want_hi); return; }
+    int want_hi = 0; bool hi_uncertain = false;  // a subpage abandoned by a header of the same page number may or may not have been stored
+    for (auto& kv : store) if ((kv.first >> 8) == o.pgno) { if (kv.second.tainted) hi_uncertain = true; if (kv.second.subno > want_hi) want_hi = kv.second.subno; }
+    if (hi != want_hi && !hi_uncertain) { ctx->fail("oracle:ttx-hi-subno", "vbi_cache_hi_subno(%x) = %x, highest subpage received %x", o.pgno, hi, want_hi); return; }
     ctx->log("checked %x.%x ok", o.pgno, o.subno);
   }
 
@@ -429,7 +431,7 @@ struct C02 : World, TtxWorldBase {
       if (per[(size_t)m].empty()) continue;
       sched.spawn("mag" + std::to_string(m), [&, m] {
         int mag = m ? m : 8;
-        int prev_page = -1;
+        int prev_page = -1, prev_sub = -1;
         auto send_header = [&](int page, int subno, int nat, bool erase) {
           int pgno = mag * 256 + page;
           uint8_t text[32]; header_text(pgno, text);
@@ -439,14 +441,25 @@ struct C02 : World, TtxWorldBase {
           // the header is in the decoder once its frame was decoded
           flush();
           OpenPage& o = open_[m];
+          bool taint = false;
           if (o.open && o.pgno != pgno) terminate(m);
-          else if (o.open) {  // same page number again: the statement leaves this undefined; not checked
+          else if (o.open && o.subno != subno) {
+            // Another subpage of the same page number follows directly.  The page in progress was not "terminated by a
+            // header carrying a different page number": whether it is stored the statement does not say (the decoder
+            // stores it when it was sent with the erase flag or for the first time and abandons it otherwise) - its
+            // store entry is uncertain from now on.  The page this header opens is an ordinary transmission: it will be
+            // terminated by a header with another number and must then show its own rows, and where it is continued
+            // from the cache, the previous content of ITS OWN subpage - nothing of the abandoned one.
+            int key = (o.pgno << 8) | subkey(o.subno);
+            store[key].tainted = true; store[key].subno = o.subno;
+            c.count("same_pgno_other_subpage_follows");
+          } else if (o.open) {  // same page and subpage again: the statement leaves this undefined; not checked
             o.tainted = true;
             int key = (o.pgno << 8) | subkey(o.subno);
             store[key].tainted = true; store[(pgno << 8) | subkey(subno)].tainted = true;
             c.count("same_pgno_consecutive_unchecked");
+            taint = true;
           }
-          bool taint = o.open && o.tainted;
           o = OpenPage(); o.open = true; o.pgno = pgno; o.subno = subno; o.nat = nat; o.erase = erase; o.tainted = taint; memcpy(o.text, text, 32);
         };
         // time filling header mFF: a header like any other (it terminates the page in progress of its magazine; in
@@ -476,17 +489,20 @@ struct C02 : World, TtxWorldBase {
             sched.yield();
             continue;
           }
+          int flags = (int)op->arg(5);
           int page = to_bcd((int)(llabs(op->arg(0)) % 99));
-          if (page == prev_page) page = to_bcd((int)((llabs(op->arg(0)) + 1) % 99));
-          prev_page = page;
-          int sub = to_bcd((int)(llabs(op->arg(1)) % 80));
           // a page number either has subpages 01-79 or is always sent with subcode 0000 (EN 300 706 A.1); mixing
           // both for one page number is outside the statement (the single version replaces a subpage)
-          if (page & 1) sub = 0; else if (sub == 0) sub = 1;
+          auto sub_for = [&](int pg) { int s = to_bcd((int)(llabs(op->arg(1)) % 80)); if (pg & 1) s = 0; else if (s == 0) s = 1; return s; };
+          bool back_to_back = (flags & 32) && page == prev_page && sub_for(page) != prev_sub;
+          if (page == prev_page && !back_to_back) page = to_bcd((int)((llabs(op->arg(0)) + 1) % 99));
+          prev_page = page;
+          int sub = sub_for(page);
+          prev_sub = sub;
+          if (back_to_back) c.count("subpages_back_to_back");
           int nat = (int)(llabs(op->arg(2)) % 8);
           bool erase = op->arg(3) & 1;
           Rng r((uint64_t)op->arg(4), "content");
-          int flags = (int)op->arg(5);
           page_begin(m);
           send_header(page, sub, nat, erase);
           sched.yield();
